@@ -363,6 +363,87 @@ def rule_cancel_safe_flush(ctx):
                "after the pending bytes were taken out of the buffer send_data can %s before the frame is handed over: a cancelled/timed-out flush drops bytes that write_all already accepted" % ("suspend (await)" if susp else "return"), f.loc())
 
 
+def rule_write_order(ctx):
+    R = "C14.10"
+    ctx.rule(R, "no accepted byte is left behind or overtaken: send_close hands the buffered bytes over (send_data succeeded) before the CLOSE frame; WriteStream::flush does so before notifying the flusher; write_all pushes into a full buffer only after send_data succeeded; send_data returns early only when the buffer is empty and the frame it sends carries the buffer that was taken")
+    is_sd = lambda b: b[0] == "await" and b[1][0] == "call" and b[1][1].endswith("WriteReusableStream::send_data")
+    # send_close / flush: the later step is dominated by send_data's success
+    for q, what, later in ((RS + "::WriteReusableStream::send_close", "the CLOSE frame", lambda c, g, T: c["q"].rsplit("::", 1)[-1] in ("send", "try_send") and any(x[0] == "agg" and x[1].endswith("WriteCommand") for a in T.args_of(c) for x in subterms(a))),
+                           (NET + "::mux::transient_stream::WriteStream::flush", "the flush notification", lambda c, g, T: c["q"].endswith("Notify::notify_one"))):
+        l = ctx.F.by_qname.get(q, [])
+        if not l:
+            if what == "the flush notification":
+                ctx.note("C14.10: WriteStream::flush not present (it is dead code today) - skipped")
+                continue
+            ctx.ob(R, "anchor %s" % q.rsplit("::", 1)[-1], False, "anchor missing: %s" % q)
+            continue
+        g = ctx.body(q)
+        T = ctx.T(g)
+        cfg = ctx.cfg(g)
+        e = Q.success_edges(ctx, g, is_sd)
+        sites = [c for c in T.calls() if later(c, g, T)]
+        ok = bool(e) and bool(sites) and all(cfg.must_pass(c["bb"], e) for c in sites)
+        ctx.ob(R, "%s: buffered bytes first" % q.rsplit("::", 1)[-1], ok, "%s is dominated by the success of send_data" % what if ok else
+               "%s can be sent although the buffered bytes were not handed over (send_data missing / not awaited / result ignored): bytes the writer accepted are lost or arrive after the end of the stream" % what, g.loc())
+    # write_all: per iteration, a full buffer is flushed before more is pushed
+    g = ctx.body(NET + "::mux::transient_stream::WriteStream::write_all")
+    T = ctx.T(g)
+    cfg = ctx.cfg(g)
+
+    def m_cap(a, b):
+        def cap(t):
+            return any(x[0] == "call" and x[1].endswith("bytes::Buffer::capacity") for x in subterms(t))
+        if cap(a) and b == ("const", 0):
+            return 1
+        if cap(b) and a == ("const", 0):
+            return -1
+        return 0
+    W = Walker(ctx, g, [Atom("cmp(capacity,0)", "cmp", m_cap, ["=", ">"])])
+    pushes = [c["bb"] for c in T.calls() if c["q"].endswith("bytes::Buffer::push")]
+    e = Q.success_edges(ctx, g, is_sd)
+    ctx.floor(R, "push sites in write_all", len(pushes), 1)
+    caps = [c["bb"] for c in T.calls() if c["q"].endswith("bytes::Buffer::capacity")]
+    if pushes and caps:
+        head = min(caps)
+        r_full = W.reachable({"cmp(capacity,0)": "="}, head, frozenset(), frozenset(e))
+        ok = bool(e) and not (set(pushes) & r_full)
+        r_free = W.reachable({"cmp(capacity,0)": ">"}, head)
+        ok2 = bool(set(pushes) & r_free)
+        ctx.ob(R, "write_all: full buffer flushed before push", ok and ok2, "with capacity() == 0 push is reached only through the success of send_data; with room left it is reached directly" if ok and ok2 else
+               "write_all can push into a full buffer without send_data having succeeded (the loop makes no progress / bytes are dropped)" if not ok else "write_all never pushes when the buffer has room", g.loc())
+    else:
+        ctx.ob(R, "write_all: full buffer flushed before push", False, "capacity test or push not found in write_all", g.loc())
+    # send_data: early return only on an empty buffer; the frame carries the taken buffer
+    g = ctx.body(RS + "::WriteReusableStream::send_data")
+    T = ctx.T(g)
+    cfg = ctx.cfg(g)
+
+    def m_len(a, b):
+        def ln(t):
+            return any(x[0] == "call" and x[1].endswith("bytes::Buffer::len") for x in subterms(t))
+        if ln(a) and b == ("const", 0):
+            return 1
+        if ln(b) and a == ("const", 0):
+            return -1
+        return 0
+    W = Walker(ctx, g, [Atom("cmp(len,0)", "cmp", m_len, ["=", ">"])])
+    hands = [c["bb"] for c in T.calls() if c["q"].rsplit("::", 1)[-1] in ("send", "try_send") and any(x[0] == "agg" and x[1].endswith("WriteCommand") for a in T.args_of(c) for x in subterms(a))]
+    oks = [bi for bi, b in enumerate(g.blocks) for st in b["s"] if st["k"] == "assign" and st["p"]["l"] in Q.ret_locals(g) and not st["p"].get("pr") and st["r"]["k"] == "agg" and st["r"].get("variant") == "Ok"]
+    r_nonempty = W.reachable({"cmp(len,0)": ">"}, 0, frozenset(hands))
+    ok = bool(hands) and bool(oks) and not (set(oks) & r_nonempty)
+    ctx.ob(R, "send_data: success means handed over", ok, "with a non-empty buffer Ok is returned only after the frame was handed to the writer task" if ok else
+           "send_data can return Ok with a non-empty buffer without handing the frame over", g.loc())
+    datas = []
+    for c in T.calls():
+        if c["bb"] in hands:
+            for a in T.args_of(c):
+                for x in subterms(a):
+                    if x[0] == "agg" and x[1].endswith("reusable_stream::Frame"):
+                        datas.append(dict(x[3]).get("data"))
+    okd = bool(datas) and all(d is not None and any(y[0] == "call" and y[1] in ("std::mem::replace", "std::mem::take") and any(chain(z)[1][-1:] == ["buffer"] for z in y[2]) for y in subterms(d)) for d in datas)
+    ctx.ob(R, "send_data: the frame carries the taken buffer", okd, "Frame.data = Some(mem::replace(&mut self.buffer, fresh))" if okd else "the DATA frame does not carry the bytes taken out of the stream buffer: %s" % [show(d)[:80] if d else None for d in datas], g.loc())
+
+
 def rule_drop_order(ctx):
     R = "C14.5"
     ctx.rule(R, "drop order: in Frame, `data` is declared before `_permit` (the buffer is freed before its permits are returned)")
@@ -494,5 +575,5 @@ def rule_casts(ctx):
     ctx.floor(R, "narrowing casts inventoried", sum(len(v) for v in found.values()), 4)
 
 
-RULES = [("C14.1", rule_permit_before_buffer), ("C14.2", rule_config), ("C14.3", rule_stream_ids), ("C14.4", rule_frame_kind_dispatch), ("C14.5", rule_drop_order), ("C14.9", rule_cancel_safe_flush), ("C14.6", rule_one_transient),
+RULES = [("C14.1", rule_permit_before_buffer), ("C14.2", rule_config), ("C14.3", rule_stream_ids), ("C14.4", rule_frame_kind_dispatch), ("C14.5", rule_drop_order), ("C14.9", rule_cancel_safe_flush), ("C14.10", rule_write_order), ("C14.6", rule_one_transient),
          ("C14.7", rule_reader), ("C14.8", rule_casts)]
